@@ -14,6 +14,12 @@ COMMON_NOTE = (
 )
 TECH = "symbolic execution of the real Python on z3-backed proxy scalars (decision-tree re-execution), exact parametric-LP stub, SMT (QF_LRA) obligations per path, counterexamples replayed on the unshimmed code"
 CHECKS = {
+    "C09": {
+        "text": "The real pyparsing grammar, every parse action and all of syntax/data.py run on strings generated from the documented grammar in which every numeral is a digit placeholder bound to a fresh non-negative real: coefficient products, cancellation to zero, equality of absolute-term groups and zero divisors are branch conditions explored by z3. Per accepting path one QF_NRA query decides 'parsed inequalities <=> written relation' for all points and numerals; convexity errors are accepted iff a syntactic absolute-term group has net coefficient <= 0; value-dependent syntax errors only for a zero divisor; malformed mutants must raise the syntax error; parsing twice must agree. A second mode uses concrete numerals in several spellings and spacings.",
+        "design_ref": "DESIGN.md section 8 C09",
+        "note": COMMON_NOTE + " No LP is involved in this check. Expression trees are bounded (depth, numerals) and generated, not exhaustive; strings the grammar refuses independently of numeral values are counted, not judged.",
+        "technique": "symbolic execution of the real parser actions on z3-backed numerals (decision-tree re-execution), SMT (QF_NRA) equivalence query per path against a reference semantics of the expression tree, replay with numerals written into the text",
+    },
     "C11": {
         "text": "Symbolic execution of contains_behavior / evaluate / substitute_variable with coefficients, constants and behaviour values all symbolic (small shapes, QF_NRA) and with concrete coefficients on larger shapes; the returned Boolean must equal the conjunction of the inequalities exactly (boundary included) and ValueError must be raised iff a variable with non-zero coefficient is unassigned. is_empty / is_polytope_empty with symbolic constants must agree with the exact projection. A combined harness decides consistency with refines.",
         "design_ref": "DESIGN.md section 8 C11",
